@@ -122,6 +122,54 @@ theorem different_context_or_salt (P : Prims) (hl : LenLaws P) (ctx salt k ctx' 
     · exact hne hs
   · exact hnc m m' hm hm' hd hcoll
 
+/-! ### input normalisation
+
+A derivation that first *normalised* an input (hashed a long salt "as HMAC does", truncated or
+padded it to a block, trimmed or case-folded the context) would send `x` and `N x` to the same
+secret. The model does no such thing: for EVERY function `N`, a salt (context) and its image, when
+different, reach BLAKE3 derive-key as different (domain, input) pairs, so that only a collision of
+the primitive can make the outputs equal. The engine evaluates the same statement on the real
+code for the pairs `(x, N x)` of every plausible `N` (`harness/cmd/encrypt/norm.go`). -/
+
+/-- Whatever `N` is: a salt and its image under `N`, if different, give different KDF inputs
+(same context, same material). -/
+theorem normalised_salt_distinct_input (N : Bytes → Bytes) (ctx salt m : Bytes) (hm : m.length = 32)
+    (hN : N salt ≠ salt) :
+    kdfInput (N salt) (xorContext m ctx) ≠ kdfInput salt (xorContext m ctx) := by
+  intro h
+  exact hN (kdf_input_injective ctx ctx (N salt) salt m m hm hm rfl h).1
+
+/-- … and therefore different outputs, unless BLAKE3 derive-key collides on those two inputs. -/
+theorem normalised_salt_separated (P : Prims) (hl : LenLaws P) (N : Bytes → Bytes)
+    (ctx salt k out out' : Bytes) (n : Nat) (hN : N salt ≠ salt)
+    (h : deriveKey P ctx salt k n = .ok out) (h' : deriveKey P ctx (N salt) k n = .ok out')
+    (hnc : ∀ m, deriveMaterial P ctx k = .ok m →
+      P (.kdf ctx (kdfInput salt (xorContext m ctx)) n) ≠ P (.kdf ctx (kdfInput (N salt) (xorContext m ctx)) n)) :
+    out ≠ out' := by
+  apply different_context_or_salt P hl ctx salt k ctx (N salt) k out out' n h h' (Or.inr (Ne.symm hN))
+  intro m m' hm hm' _
+  rw [hm] at hm'
+  cases hm'
+  exact hnc m hm
+
+/-- The same for the context: a context and its image under any `N`, if different, select
+different BLAKE3 derive-key domains. -/
+theorem normalised_context_separated (P : Prims) (hl : LenLaws P) (N : Bytes → Bytes)
+    (ctx salt k out out' : Bytes) (n : Nat) (hN : N ctx ≠ ctx)
+    (h : deriveKey P ctx salt k n = .ok out) (h' : deriveKey P (N ctx) salt k n = .ok out')
+    (hnc : ∀ m m', deriveMaterial P ctx k = .ok m → deriveMaterial P (N ctx) k = .ok m' →
+      P (.kdf ctx (kdfInput salt (xorContext m ctx)) n) ≠
+        P (.kdf (N ctx) (kdfInput salt (xorContext m' (N ctx))) n)) :
+    out ≠ out' := by
+  apply different_context_or_salt P hl ctx salt k (N ctx) salt k out out' n h h' (Or.inl (Ne.symm hN))
+  intro m m' hm hm' _
+  exact hnc m m' hm hm'
+
+/-- Non-vacuity: "keep the first 2 bytes" is such an `N`, and the two KDF inputs differ. -/
+example : kdfInput (List.take 2 [1, 2, 3]) (xorContext (List.replicate 32 0) [9]) ≠
+    kdfInput [1, 2, 3] (xorContext (List.replicate 32 0) [9]) :=
+  normalised_salt_distinct_input (List.take 2) [9] [1, 2, 3] (List.replicate 32 0) (by simp) (by decide)
+
 /-- The defect that was fixed: the loop as originally written (no guard) divides by zero for an
 empty context whenever there is material to xor… -/
 theorem unguarded_xor_panics (m : Bytes) (h : m ≠ []) : xorContextUnguarded m [] = none := by
